@@ -312,8 +312,8 @@ func runC08Alloc(c *Ctx) {
 			c.Bad(in.Pos(), fn, construct, fmt.Sprintf("allocation sized by %s, which derives from an input count (%s at %s), with no dominating comparison against the remaining input length: a short input can reserve memory out of proportion or panic in makeslice", sp, srcName, c.P.Pos(src.Pos())))
 		})
 	}
-	if nTainted < 6 {
-		c.Errorf("only %d input-count-sized allocations found, expected >= 6 (taint sources no longer recognised?)", nTainted)
+	if nTainted < 3 {
+		c.Errorf("only %d input-count-sized allocations found, expected >= 3 (taint sources no longer recognised?)", nTainted)
 	}
 }
 
